@@ -1,6 +1,7 @@
 (* Props/C10.v — Duration arithmetic agrees with timedelta arithmetic.
    Only theorem statements; every proof is `exact <lemma>` (Proofs/C10Facts.v).
-   Model: Model/DurationOps.v assembled from the TRANSLATED Gen/DurationOps.v (py_divide_and_round, py_Duration_to_microseconds, the integer
+   Model: Model/DurationOps.v assembled from the TRANSLATED Gen/DurationOps.v (py_divide_and_round, py_Duration_to_microseconds,
+   py_timedelta_to_microseconds_duration / _plain, the integer
    constructor arguments of every operator branch, py_return_table) and hand-modelled SpecFloat parts; equal to /repo's duration.py / interval.py
    on every run by correspondence (both backends).  Notation: d_N = native timedelta value in microseconds; YM y m = 365 y + 30 m days;
    exact0 d : the stored (_days, _seconds, _microseconds) hold exactly d_N d (what Duration.__new__ gives without years / months while its
@@ -89,7 +90,7 @@ Theorem truediv_float_spec : forall d x r, dur_truediv d (VFloat x) = Ok (RDur r
 Proof. exact C10Facts.truediv_float_spec. Qed.
 Print Assumptions truediv_float_spec.
 
-(* ---- // / % divmod by another Duration give what timedelta's own operators give on the native values *)
+(* ---- // / % divmod by another Duration or by a plain timedelta give what timedelta's own operators give on the native values *)
 Theorem div_mod_by_duration_spec : forall m d d2 r, (m = 5 \/ m = 6 \/ m = 7 \/ m = 8) -> exact0 d -> exact0 d2 ->
   dur_method m d (VDur d2) = Ok r ->
   d_N d2 <> 0 /\ exists t, td_binop m (d_N d) (d_N d2) = Ok t /\ same_length r t.
@@ -101,18 +102,54 @@ Theorem div_by_zero_duration_raises : forall m d d2, (m = 5 \/ m = 6 \/ m = 7 \/
 Proof. exact div_by_zero_duration. Qed.
 Print Assumptions div_by_zero_duration_raises.
 
-(* CURRENT CODE: with a PLAIN timedelta on the right these four always raise AttributeError, so the statement
-   ("whether the other operand is a Duration or a plain timedelta") is false of the faithful model *)
-Theorem div_by_plain_timedelta_always_raises : forall m d n, (m = 5 \/ m = 6 \/ m = 7 \/ m = 8) ->
-  dur_method m d (VTd n) = Raise E_AttributeError.
-Proof. exact div_by_plain_timedelta_raises. Qed.
-Print Assumptions div_by_plain_timedelta_always_raises.
+(* ... and by a PLAIN datetime.timedelta (the divisor is _timedelta_to_microseconds(other): the microseconds of the timedelta's public
+   days / seconds / microseconds) — the same statement as for a Duration operand *)
+Theorem div_mod_by_timedelta_spec : forall m d n r, (m = 5 \/ m = 6 \/ m = 7 \/ m = 8) -> exact0 d ->
+  dur_method m d (VTd n) = Ok r ->
+  n <> 0 /\ exists t, td_binop m (d_N d) n = Ok t /\ same_length r t.
+Proof. exact C10Facts.div_mod_by_timedelta_spec. Qed.
+Print Assumptions div_mod_by_timedelta_spec.
 
-Theorem div_by_timedelta_refuted :
-  ~ (forall m d n t, (m = 5 \/ m = 6 \/ m = 7 \/ m = 8) -> exact0 d -> td_binop m (d_N d) n = Ok t ->
-       exists r, dur_method m d (VTd n) = Ok r /\ same_length r t).
-Proof. exact C10Facts.div_by_timedelta_refuted. Qed.
-Print Assumptions div_by_timedelta_refuted.
+Theorem div_by_zero_timedelta_raises : forall m d, (m = 5 \/ m = 6 \/ m = 7 \/ m = 8) -> dur_method m d (VTd 0) = Raise E_ZeroDivisionError.
+Proof. exact div_by_zero_timedelta. Qed.
+Print Assumptions div_by_zero_timedelta_raises.
+
+(* "whether the other operand is a Duration or a plain timedelta": the plain timedelta of the same length gives literally the same
+   outcome — value, Duration remainder or exception — for every left operand *)
+Theorem div_mod_operand_kind_irrelevant : forall m d d2, (m = 5 \/ m = 6 \/ m = 7 \/ m = 8) -> exact0 d2 ->
+  dur_method m d (VTd (d_N d2)) = dur_method m d (VDur d2).
+Proof. exact C10Facts.div_mod_operand_kind_irrelevant. Qed.
+Print Assumptions div_mod_operand_kind_irrelevant.
+
+(* // and / by a plain timedelta ARE timedelta's own operators on the native values (value and exception alike) *)
+Theorem floordiv_truediv_by_timedelta_native : forall m d n, (m = 5 \/ m = 6) -> exact0 d ->
+  dur_method m d (VTd n) = td_binop m (d_N d) n.
+Proof. exact C10Facts.floordiv_truediv_by_timedelta_native. Qed.
+Print Assumptions floordiv_truediv_by_timedelta_native.
+
+(* the statement that was refuted before the repair (div_by_timedelta_refuted), now proved: whenever timedelta's own operator yields a
+   value, the Duration operator yields the same one.  For % and divmod the remainder goes through Duration.__new__; that this
+   construction succeeds is a fact about the constructor (C09), hence a hypothesis here, discharged below 2^33 s by the next theorem *)
+Theorem div_by_timedelta_agrees : forall m d n t, (m = 5 \/ m = 6 \/ m = 7 \/ m = 8) -> exact0 d ->
+  td_binop m (d_N d) n = Ok t ->
+  (m = 7 \/ m = 8 -> exists r0, dur_of_us (d_N d mod n) = Ok r0) ->
+  exists r, dur_method m d (VTd n) = Ok r /\ same_length r t.
+Proof. exact C10Facts.div_by_timedelta_agrees. Qed.
+Print Assumptions div_by_timedelta_agrees.
+
+Theorem remainder_constructible_partial : float_split_exact_on_D9 -> forall u, Z.abs u < B33 -> exists r0, dur_of_us u = Ok r0.
+Proof. exact remainder_constructible. Qed.
+Print Assumptions remainder_constructible_partial.
+
+(* the former witness 3 days // 5 hours (AttributeError before the repair) now computes the native 14, 14.4, 2 h, (14, 2 h) *)
+Theorem div_by_timedelta_example : exists d r7 r8,
+  duration_new 3 0 0 0 0 0 0 0 0 = Ok d /\ exact0 d
+  /\ dur_method 5 d (VTd 18000000000) = Ok (RInt 14) /\ td_binop 5 (d_N d) 18000000000 = Ok (RInt 14)
+  /\ dur_method 6 d (VTd 18000000000) = td_binop 6 (d_N d) 18000000000
+  /\ dur_method 7 d (VTd 18000000000) = Ok (RDur r7) /\ d_N r7 = 7200000000
+  /\ dur_method 8 d (VTd 18000000000) = Ok (RPair 14 r8) /\ d_N r8 = 7200000000.
+Proof. exact div_by_timedelta_witness. Qed.
+Print Assumptions div_by_timedelta_example.
 
 (* ---- + - and int scaling: through float seconds; exact below 2^31 s given the float premises *)
 Theorem add_exact_partial : addsub_float_exact -> forall d o n2 r, native_len o = Some n2 ->
@@ -165,11 +202,13 @@ Theorem return_table : forall m d o r, In m [1; 2; 4; 5; 6; 7; 8] -> dur_method 
 Proof. exact return_table_agrees. Qed.
 Print Assumptions return_table.
 
-Theorem attribute_error_table : forall m d o, In (m, kind_of_value o, 6) py_return_table -> dur_method m d o = Raise E_AttributeError.
-Proof. exact attribute_error_where_table_says. Qed.
-Print Assumptions attribute_error_table.
+(* no AttributeError entry in the generated table: no operand kind makes a method touch a Duration-private attribute of `other` *)
+Theorem no_attribute_error_in_table : forall m k, ~ In (m, k, 6) py_return_table.
+Proof. exact C10Facts.no_attribute_error_in_table. Qed.
+Print Assumptions no_attribute_error_in_table.
 
-(* a binary operator with a Duration / an Interval on the left returns a Duration (int, float, (int, Duration) for // / divmod by a Duration):
+(* a binary operator with a Duration / an Interval on the left returns a Duration (int, float, (int, Duration) for // / divmod by a Duration
+   or a plain timedelta):
    never a plain timedelta, never NotImplemented (that becomes TypeError) *)
 Theorem result_is_duration : forall m d o res, is_arith m = true -> arith_op m (VDur d) o = Ok res -> duration_kind m o res.
 Proof. exact duration_left_result. Qed.
